@@ -31,13 +31,15 @@ Definition from_env (e : option Z) (dflt : Z) : Z := match e with Some v => v | 
 
 (* --- documented behaviour = the code since the repair of set_decimal_config:
      width = int(os.getenv(VAR, DEFAULT_DECIMAL_WIDTH)), scale likewise   -- an unset variable is its documented default
-     -1 -> MAX;  scale range check;  width range check (both bounds on the width);
+     -1 -> MAX;  scale range check;  width range check (both bounds on the width);  width < scale rejected as well
+     (DECIMAL(w,s) needs s <= w; same error, naming the width);
      the module globals are assigned only after validation (a rejected call leaves them as they were) *)
 Definition set_decimal_config_spec (k : consts) (ew es : option Z) (g : globals) : cfg_result :=
   let w1 := eff (c_disable k) (c_max_w k) (from_env ew (c_def_w k)) in
   let s1 := eff (c_disable k) (c_max_s k) (from_env es (c_def_s k)) in
   if (s1 <? c_min_s k) || (s1 >? c_max_s k) then Rejected VarScale s1 g
   else if (w1 <? c_min_w k) || (w1 >? c_max_w k) then Rejected VarWidth w1 g
+  else if w1 <? s1 then Rejected VarWidth w1 g
   else Accepted (mkG w1 s1).
 
 (* --- the code BEFORE that repair (kept for the regression witnesses only; not tied to the current tree):
